@@ -134,7 +134,8 @@ impl QGramIndex {
         let mut diagonals = collections::HashMap::new();
         for (i, qgram) in self.ranks.qgrams(self.q, pattern).enumerate() {
             for &p in self.qgram_matches(qgram) {
-                let diagonal = p - i;
+                // the text position may be smaller than the pattern position
+                let diagonal = p as isize - i as isize;
                 match diagonals.entry(diagonal) {
                     Entry::Vacant(v) => {
                         v.insert(Match {
